@@ -184,4 +184,96 @@ Proof.
   destruct (run (go T f) (call_Ifs (QElifs [IfBranch (Some (emb e)) body] c6))) as [[bs c7]| | |]; reflexivity.
 Qed.
 
+(* ---- an expression as a statement: `e <newline>` ---- *)
+
+(* the printed form starts with a token that is not an identifier, or with an identifier-rooted postfix chain
+   that is followed by nothing or by a binary operator *)
+Lemma pp_left e : lower_ok e = true -> wf T e ->
+  (exists t ts, pp e = t :: ts /\ starter t /\ (forall r, t <> TIdent r)) \/
+  (exists r ps tl, pp e = TIdent r :: pp_posts ps ++ tl /\ is_capitalized r = false /\ lower_posts ps = true
+                   /\ wfp T ps /\ (tl = [] \/ exists o tl', tl = bt o :: tl')).
+Proof.
+  induction e as [z|r ps|o l IHl r IHr|u x IHx|x IHx]; intros L W.
+  - left. exists (TInt z), []. split; [reflexivity|split; [exact I|discriminate]].
+  - right. cbn [lower_ok] in L. apply andb_prop in L. destruct L as [L1 L2]. apply negb_true_iff in L1.
+    exists r, ps, []. rewrite app_nil_r. repeat split; try assumption. left. reflexivity.
+  - cbn [lower_ok] in L. apply andb_prop in L. destruct L as [Ll Lr]. cbn [wf] in W. destruct W as (_ & _ & _ & Wl & _).
+    destruct (IHl Ll Wl) as [(t & ts & E & S & N)|(r0 & ps & tl & E & C1 & C2 & C3 & C4)].
+    + left. exists t, (ts ++ bt o :: pp r). cbn [pp]. rewrite E. repeat split; assumption.
+    + right. exists r0, ps, (tl ++ bt o :: pp r). cbn [pp]. rewrite E. cbn [app]. rewrite <- app_assoc.
+      repeat split; try assumption. right. destruct C4 as [->|(o' & tl' & ->)]; [exists o, (pp r); reflexivity|].
+      exists o', (tl' ++ bt o :: pp r). reflexivity.
+  - left. exists (TK (doc_untok u)), (pp x). split; [reflexivity|split; [destruct u; exact I|discriminate]].
+  - left. exists (TK KLeftParen), (pp x ++ [TK KRightParen]). split; [reflexivity|split; [exact I|discriminate]].
+Qed.
+
+Lemma bt_not_assign o : assign_op (bt o) = None.
+Proof. destruct o as [| | | |k| | |]; try destruct k; reflexivity. Qed.
+
+Theorem expr_stmt_roundtrip e : lower_ok e = true -> dwf e = true ->
+  forall p rest ov b, exists f0, forall f, f0 <= f ->
+    go T (S f) (QStmt (C p (pp e ++ TK KNewline :: rest) ov b))
+    = stmt_end b (SExpr (emb e)) (C (rev (pp e) ++ p) (TK KNewline :: rest) ov false).
+Proof.
+  intros L D p rest ov b.
+  destruct (dwf_wf_all T OK) as [HW _]. pose proof (HW e D) as W.
+  destruct (roundtrip_literal T OK e L D p (TK KNewline :: rest) ov false (follow_nl rest)) as [f0 H].
+  assert (Expr : forall f, f0 <= f ->
+            run (go T f) (stmt_expr T (C p (pp e ++ TK KNewline :: rest) ov false))
+            = Ok (SExpr (emb e), C (rev (pp e) ++ p) (TK KNewline :: rest) ov false)).
+  { intros f Hf. unfold stmt_expr, expression. rewrite !run_ptry. unfold call_E. cbn [run]. rewrite (H f Hf). reflexivity. }
+  destruct (pp_left e L W) as [(t & ts & E & St & Ni)|(r & ps & tl & E & C1 & C2 & C3 & C4)].
+  - (* not an identifier: the assignment probe fails at once *)
+    exists f0. intros f Hf. rewrite go_S. cbn [step]. unfold step_stmt, push_nl, set_nl. cbn [pre post over nl].
+    rewrite skip0 by apply pp_clean.
+    assert (Tk1 : token (C p (pp e ++ TK KNewline :: rest) ov false) = t)
+      by (unfold token; cbn [post]; rewrite E; reflexivity).
+    assert (Body : run (go T f) (stmt_assign_or_expr T (C p (pp e ++ TK KNewline :: rest) ov false))
+                   = Ok (SExpr (emb e), C (rev (pp e) ++ p) (TK KNewline :: rest) ov false)).
+    { unfold stmt_assign_or_expr. rewrite run_ptry. unfold assignable_p. rewrite Tk1.
+      starter_cases t St; try (exfalso; eapply Ni; reflexivity); cbn [praise run raise]; apply Expr; exact Hf. }
+    unfold look3. rewrite Tk1. rewrite run_ptry.
+    starter_cases t St; try (exfalso; eapply Ni; reflexivity); rewrite Body; apply tail_newline.
+  - (* an identifier-rooted chain: the probe parses it and stops at an operator or at the newline *)
+    destruct (roundtrip_all T OK) as (_ & HPp & _).
+    assert (Fl : follow false (tl ++ TK KNewline :: rest)).
+    { destruct C4 as [->|(o & tl' & ->)]; [reflexivity|]. cbn [app follow]. apply bt_follow. }
+    destruct (HPp ps C2 C3 (ARead r) (TIdent r :: p) (tl ++ TK KNewline :: rest) ov false Fl) as [f1 H1].
+    exists (S (Nat.max f0 f1)). intros f Hf. destruct f as [|f]; [lia|].
+    rewrite go_S. cbn [step]. unfold step_stmt, push_nl, set_nl. cbn [pre post over nl].
+    rewrite skip0 by apply pp_clean.
+    assert (K : clean false (pp_posts ps ++ tl ++ TK KNewline :: rest)).
+    { pose proof (pp_clean false e (TK KNewline :: rest)) as X. rewrite E in X. cbn [app] in X.
+      (* the token after the identifier *)
+      destruct ps as [|n ps'|k ps'|args ps']; cbn [pp_posts app]; try (split; [discriminate|intros Y; discriminate Y]).
+      apply follow_is_clean. exact Fl. }
+    assert (S1 : skip 1 (C p (TIdent r :: pp_posts ps ++ tl ++ TK KNewline :: rest) ov false)
+                 = C (TIdent r :: p) (pp_posts ps ++ tl ++ TK KNewline :: rest) ov false)
+      by (apply skip1; [discriminate|exact K]).
+    assert (Eq : pp e ++ TK KNewline :: rest = TIdent r :: pp_posts ps ++ tl ++ TK KNewline :: rest)
+      by (rewrite E; cbn [app]; rewrite <- app_assoc; reflexivity).
+    assert (Tk1 : token (C p (pp e ++ TK KNewline :: rest) ov false) = TIdent r) by (rewrite Eq; reflexivity).
+    assert (S1' : skip 1 (C p (pp e ++ TK KNewline :: rest) ov false)
+                  = C (TIdent r :: p) (pp_posts ps ++ tl ++ TK KNewline :: rest) ov false) by (rewrite Eq; exact S1).
+    assert (Tl : assign_op (token (C (rev (pp_posts ps) ++ TIdent r :: p) (tl ++ TK KNewline :: rest) ov false)) = None).
+    { unfold token. cbn [post]. destruct C4 as [->|(o & tl' & ->)]; [reflexivity|]. cbn [app]. apply bt_not_assign. }
+    assert (Body : run (go T (S f)) (stmt_assign_or_expr T (C p (pp e ++ TK KNewline :: rest) ov false))
+                   = Ok (SExpr (emb e), C (rev (pp e) ++ p) (TK KNewline :: rest) ov false)).
+    { unfold stmt_assign_or_expr. rewrite run_ptry. unfold assignable_p. rewrite Tk1, S1'.
+      unfold call_A. cbn [run]. rewrite (H1 (S f) ltac:(lia)). cbn [get_A run ok]. rewrite Tl.
+      apply Expr. lia. }
+    unfold look3. rewrite Tk1, S1'. rewrite run_ptry.
+    (* the second token is `.`, `[`, `(`, an operator or the newline: none of the definition forms *)
+    assert (T2 : forall k, token (C (TIdent r :: p) (pp_posts ps ++ tl ++ TK KNewline :: rest) ov false) = TK k ->
+                 k <> KColonColon /\ k <> KColonEqual /\ k <> KColon).
+    { unfold token. cbn [post]. intros k.
+      destruct ps as [|n ps'|k0 ps'|args ps']; cbn [pp_posts app]; try (intros X; inversion X; repeat split; discriminate).
+      destruct C4 as [->|(o & tl' & ->)]; cbn [app]; [intros X; inversion X; repeat split; discriminate|].
+      destruct o as [| | | |k1| | |]; try destruct k1; intros X; inversion X; repeat split; discriminate. }
+    destruct (token (C (TIdent r :: p) (pp_posts ps ++ tl ++ TK KNewline :: rest) ov false)) as [| | | | | |k|] eqn:Tk2;
+      try (rewrite Body; apply tail_newline).
+    destruct (T2 k eq_refl) as (N1 & N2 & N3).
+    destruct k; try congruence; rewrite Body; apply tail_newline.
+Qed.
+
 End SRT.
